@@ -482,7 +482,10 @@ def run_ops(env: Env, wcomp: Dict[str, Any], ops: List[List[Any]]) -> Dict[str, 
     """ops: C10 edit ops, or ["inject", cell, subseed]."""
     eng = C17Engine(env, world_from_json(wcomp["w"]))
     res: Dict[str, Any] = {"violation": None}
-    pre = C10._initial_checks(eng)
+    try:
+        pre = C10._initial_checks(eng)
+    except Violation as v0:   # a C10 matter (construction renders differently), not C17's
+        pre = "initial-render-mismatch: " + str(v0.signature)
     if pre:
         res.update({"precondition": pre, "counters": {"precondition-discarded": 1}, "trace": []})
         return res
@@ -520,7 +523,10 @@ def generate(env: Env, rseed: int, thorough: bool):
     wj = world_to_json(world)
     eng = C17Engine(env, world)
     res: Dict[str, Any] = {"violation": None}
-    pre = C10._initial_checks(eng)
+    try:
+        pre = C10._initial_checks(eng)
+    except Violation as v0:   # a C10 matter (construction renders differently), not C17's
+        pre = "initial-render-mismatch: " + str(v0.signature)
     if pre:
         res.update({"precondition": pre, "trace": [], "counters": {"precondition-discarded": 1}})
         return {"w": wj, "via": "api"}, [], res
